@@ -4,6 +4,7 @@
 package ctl
 
 import (
+	"errors"
 	"os"
 	"sync"
 )
@@ -161,4 +162,71 @@ func GateBad(a, b []byte, ok bool) []byte {
 		return a
 	}
 	return nil
+}
+
+// ---- facts about phis: a verdict computed on several branches and tested afterwards
+func PhiGood(b []byte) (byte, error) {
+	var err error
+	for {
+		if len(b) < 4 {
+			err = errors.New("short")
+			break
+		}
+		break
+	}
+	if err != nil {
+		return 0, err
+	}
+	return b[3], nil
+}
+func PhiBad(b []byte) (byte, error) {
+	var err error
+	for {
+		if len(b) < 4 {
+			break
+		}
+		err = errors.New("long")
+		break
+	}
+	if err != nil {
+		return 0, err
+	}
+	return b[3], nil
+}
+
+
+// ---- counted loops: the exact range of the values the body sees
+func CountGood() (n int) {
+	for i := range 256 {
+		n += use2(i)
+	}
+	return n
+}
+func CountBad() (n int) {
+	for i := range 0xff {
+		n += use2(i)
+	}
+	return n
+}
+func CountClassic() (n int) {
+	for i := 0; i < 256; i++ {
+		n += use2(i)
+	}
+	return n
+}
+func use2(i int) int { return i }
+
+// ---- normaliser: the helper is unknown to the reference list and must dissolve into its caller
+func InlCaller(name string) error {
+	f, err := inlOpen(name)
+	if err != nil {
+		return err
+	}
+	return f.Close()
+}
+func inlOpen(name string) (*os.File, error) {
+	if name == "" {
+		return nil, errors.New("no name")
+	}
+	return os.Open(name)
 }
